@@ -53,6 +53,7 @@ struct Cmd { const char* name; cmd_fn fn; };
 int cmd_namematch(int, char**);
 int cmd_trace(int, char**);
 int cmd_serial(int, char**);
+int cmd_api(int, char**);
 int cmd_json(int, char**);
 int cmd_promela(int, char**);
 int cmd_lua(int, char**);
